@@ -132,8 +132,57 @@ def run(tier):
             v.distinct(("prog", m, tuple(prog), tuple(len(p) for p in parts), start))
             if stats["programs"] % 400 == 1:
                 v.sample({"program_lines": prog[:6], "n": len(prog), "parts": [len(p) for p in parts], "start": start, "opts": m, "bytes": exp[:80]})
+    # (3) the initial buffer contents are the code of a SIBLING program: the same lines with other constants (and, half of the
+    # time, the very same program), so that what is already in the buffer resembles what is about to be written
+    import re
+    NUM = re.compile(r"(?<![A-Za-z0-9_*])(0[xX][0-9a-fA-F]+|[0-9]+)(?![A-Za-z0-9*])")
+
+    def sibling(line, how):
+        def f(mm):
+            t = mm.group(1)
+            val = int(t, 16) if t[:2].lower() == "0x" else int(t)
+            nv = val ^ (1 if how == 0 else (0x55 if val > 0xff else 2))
+            return ("0x%x" % nv) if t[:2].lower() == "0x" else str(nv)
+        return NUM.sub(f, line)
+
+    cases, smeta = [], []
+    nsib = 600 if not full else 12000
+    for k in range(nsib):
+        m = masks[k % 3]
+        prog = [rnd.choice(R) for _ in range(rnd.randrange(1, 9))]
+        if k % 2 == 0:  # make sure lines with constants are there
+            withnum = [l for l in R if NUM.search(l)]
+            prog[rnd.randrange(len(prog))] = rnd.choice(withnum)
+        exp = enc(prog, m)
+        L = len(exp) // 2
+        start = rnd.choice([0, 1, 19, 4095])
+        sib = [sibling(l, k % 2) for l in prog] if k % 4 else list(prog)
+        cmds = ["new 0 ext %d H 0x%02x" % (start + L + 96, rnd.choice(fills)), "opt 0 mask %s" % m, "setoff 0 %d" % start, "asm 0 %s" % common.hx("\n".join(sib)),
+                "setoff 0 %d" % start, "asm 0 %s" % common.hx("\n".join(prog)), "getoff 0", "dump 0 %d %d" % (start, start + L)]
+        cases.append(cmds)
+        smeta.append((m, prog, sib, start, exp))
+    res = common.run_cases(binary, cases, tag="c06b")
+    stats["sibling_prefill_cases"] = 0
+    for (m, prog, sib, start, exp), cmds, r in zip(smeta, cases, res):
+        v.count()
+        case = {"key": "sibling-prefill[%s] start=%d %s" % (m, start, prog[:4]), "fam": "prefill", "combo": m, "script": cmds}
+        if r["crash"]:
+            v.violation(case, r["crash"]["sig"], r["crash"]["stderr"][-800:])
+            continue
+        recs = r["records"]
+        a = recs[5].split()
+        off = int(recs[6].split()[1])
+        dump = recs[7].split()[1]
+        dump = "" if dump == "-" else dump
+        if a[1] != "0" or off != start + len(exp) // 2:
+            v.violation(case, "prefilled:rc/offset-differs", "rc=%s off=%d want %d" % (a[1], off, start + len(exp) // 2))
+        elif dump != exp:
+            v.violation(case, "prefilled:bytes-depend-on-buffer-contents", "got %s exp %s (buffer held the code of %r)" % (dump[:160], exp[:160], sib[:3]))
+        else:
+            stats["sibling_prefill_cases"] += 1
+            v.distinct(("sib", m, tuple(prog), start))
     v.cov["rule"] = ("representative set R (one line per structural group of the C01-C05 generators + skipped lines: comments, labels, section/global, blanks), enc(l) = line alone on a fresh "
                      "instance with the same options; all ordered pairs of R; seeded programs of 3-200 lines x all 2^(k-1) splits for k<=7 (random splits beyond) x start offsets {0,1,19,4095} x prefill "
-                     "{00,CC,FF,90} x repetition after asm_set_offset; oracle: byte equality with the concatenation and offset == start + total")
+                     "{00,CC,FF,90} x repetition after asm_set_offset; programs assembled over the code of a sibling program (same lines, other constants) or of themselves; oracle: byte equality with the concatenation and offset == start + total")
     v.cov["exhaustive"] = False
     return v.finish(stats, stats["representative_lines"] >= 100 and stats["pairs"] > 5000, "representative set too small: %r" % stats)
